@@ -35,7 +35,7 @@ def shards(tier):
 
 def required_counters(tier):
     return {'judged:to_image': 500, 'judged:cutout': 500, 'judged:multiply': 500, 'judged:get_values': 500,
-            'judged:image-unchanged': 500, 'judged:none-on-no-overlap': 50, 'repeat-calls': 100, 'judged:mask-unchanged': 100}
+            'judged:image-unchanged': 500, 'judged:none-on-no-overlap': 50, 'repeat-calls': 100, 'judged:mask-unchanged': 100, 'images-as-nested-sequences': 30}
 
 
 def small_boxes():
@@ -104,13 +104,17 @@ def _eqv(g, e):
     return bool(g == e or (g != g and e != e))
 
 
-def judge_mask_ops(obs, mask, box, image, fill, copy, dmask, tag):
+def judge_mask_ops(obs, mask, box, image, fill, copy, dmask, tag, imform=None):
     """Run every method on (mask, image) and compare with the model."""
     import astropy.units as u
     from regions import RegionMask
     x0, x1, y0, y1 = box
     data = np.asarray(mask.data)
     shape = image.shape
+    arg = image                   # what the methods are given: the array, or the same rows as nested lists / tuples (array_like)
+    if imform and image.size:
+        arg = image.tolist() if imform == 'list' else tuple(tuple(r) for r in image.tolist())
+        obs.count('images-as-nested-sequences')
     ov = model_overlap(box, shape)
     before = fp(image)
     imv = val(image)
@@ -153,10 +157,10 @@ def judge_mask_ops(obs, mask, box, image, fill, copy, dmask, tag):
     # -- cutout
     try:
         if isinstance(fill, float) and fill == 0.0 and copy:
-            res = mask.cutout(image, copy=copy)            # the documented default fill
+            res = mask.cutout(arg, copy=copy)            # the documented default fill
             obs.count('default-fill-calls')
         else:
-            res = mask.cutout(image, fill_value=fill, copy=copy)
+            res = mask.cutout(arg, fill_value=fill, copy=copy)
     except Exception as exc:
         obs.violation('cutout-raised', f'cutout raised {type(exc).__name__}: {exc} ({tag}, fill={fill})')
         res = 'raised'
@@ -189,7 +193,7 @@ def judge_mask_ops(obs, mask, box, image, fill, copy, dmask, tag):
 
     # -- multiply
     try:
-        res = mask.multiply(image, fill_value=fill)
+        res = mask.multiply(arg, fill_value=fill)
     except Exception as exc:
         key = 'multiply-raised'
         if unit is not None and np.isfinite(fill) and fill != 0:
@@ -243,7 +247,7 @@ def judge_mask_ops(obs, mask, box, image, fill, copy, dmask, tag):
 
     # -- get_values
     try:
-        res = mask.get_values(image, mask=dmask)
+        res = mask.get_values(arg, mask=dmask if (dmask is None or arg is image) else dmask.tolist())
     except Exception as exc:
         obs.violation('get_values-raised', f'get_values raised {type(exc).__name__}: {exc} ({tag})')
         res = 'raised'
@@ -414,7 +418,10 @@ def run_case(case, obs):
     fill = fills[nrng.integers(len(fills))]
     dm = (nrng.random(shape) < 0.3) if nrng.random() < 0.5 else None
     mfp = S.fingerprint(mask)
-    judge_mask_ops(obs, mask, box, image, fill, bool(nrng.integers(2)), dm, f'{tag} {kind}')
+    imform = None
+    if kind in ('int64', 'float64', 'float64-nonfinite', 'bool', 'complex', 'int64-big') and case['rs'] % 5 == 0:
+        imform = 'list' if case['rs'] % 2 else 'tuples'
+    judge_mask_ops(obs, mask, box, image, fill, bool(nrng.integers(2)), dm, f'{tag} {kind}' + (f' image-as-{imform}' if imform else ''), imform)
     # the same mask object applied again (same image shape, other data / data-mask / fill): every call must stand alone
     for rep in range(int(nrng.integers(1, 4))):
         image2 = make_image(nrng, shape, kind)
